@@ -2,7 +2,7 @@
 from ..engine import site_of
 from ..facts import op_place, op_local, op_const, AnchorError
 from ..callgraph import callee_is
-from ..mirutil import loops_of, success_edges, origin, deep_root, root_place
+from ..mirutil import loops_of, success_edges, origin, deep_root, root_place, forward_taint
 from ..totality import check_region, closure_region
 from ..lossy import decode_sites, check_site
 from .. import anchors as A
@@ -186,11 +186,59 @@ def r5_family_split_by_variant(cx):
         cx.check("split-by-variant-only:" + fam, not foreign, site_of(enc, ci), "inside the loop only the variant of the address decides the section (no further condition)")
 
 
+def r6_scan_resumes_inside(cx):
+    """Found inside arbitrary text: after a candidate beacon the scan resumes at a position that does not depend on where the end
+    marker was found (today: right behind the begin marker). A resume position computed from the end-marker hit skips text - a
+    second beacon that starts inside the skipped stretch (markers sharing a character, a stray begin marker before the real one,
+    a beacon quoted inside another) is lost."""
+    prog = cx.prog
+    dec = _decode(prog)
+    cx.touch(dec)
+    finds = [(bi, t) for bi, t in dec.calls() if callee_is(t, "str::<impl str>::find")]
+    cx.exact("marker-finds", len(finds), 2, "marker searches in decode (begin, end)")
+    if len(finds) != 2:
+        return
+    (b1, t1), (b2, t2) = finds
+    if dec.cfg.dominates(b2, b1) and not dec.cfg.dominates(b1, b2):
+        (b1, t1), (b2, t2) = (b2, t2), (b1, t1)
+    cx.check("begin-search-first", dec.cfg.dominates(b1, b2), site_of(dec, b1), "the begin-marker search dominates the end-marker search")
+
+    def range_start(t):
+        o = origin(dec, t["args"][0])
+        # &data[pos..]  =  Index::index(&data, RangeFrom { start })
+        hops = 0
+        while o[0] == "call" and hops < 4 and not callee_is(o[2], "ops::Index::index", "Index<I>>::index"):
+            o = origin(dec, o[2]["args"][0]) if o[2].get("args") else ("none",)
+            hops += 1
+        if o[0] != "call" or len(o[2]["args"]) != 2:
+            return None
+        r = origin(dec, o[2]["args"][1])
+        if r[0] == "rvalue" and r[2]["rv"]["k"] == "aggregate" and r[2]["rv"].get("adt", "").endswith("ops::RangeFrom") and r[2]["rv"]["ops"]:
+            q = op_place(r[2]["rv"]["ops"][0])
+            if q is None:
+                return None
+            oo = origin(dec, r[2]["rv"]["ops"][0])
+            return oo[1]["l"] if oo[0] == "place" else root_place(dec, q)["l"]
+        return None
+
+    start = range_start(t1)
+    cx.check("scan-position-found", start is not None, site_of(dec, b1), "the begin-marker search runs over data[pos..] (open-ended range from the scan position)")
+    if start is None:
+        return
+    d2 = t2["dest"]["l"] if isinstance(t2.get("dest"), dict) else None
+    if d2 is None:
+        raise AnchorError("destination of the end-marker search")
+    tainted = forward_taint(dec, seed_locals=[d2], mut_args=False)
+    cx.check("resume-independent-of-end-marker", start not in tainted, site_of(dec, b2),
+             "the position the next begin-marker search starts from is not computed from the end-marker hit (no text is skipped)")
+
+
 RULES = [
     ("C17.R1", r1_extraction_total, "beacon extraction is total: panic sites proved or reviewed; the scan advances"),
     ("C17.R2", r2_lossy_codec_repaired, "decoded beacon bytes are length-restored before positional use (base-62 drops leading zero bytes)"),
     ("C17.R3", r3_age_window_is_modular, "the age window is decided in modular 16-bit arithmetic in both directions"),
     ("C17.R5", r5_family_split_by_variant, "the encoder sorts addresses into the IPv4 / IPv6 sections by their variant alone and stores them unchanged"),
+    ("C17.R6", r6_scan_resumes_inside, "the marker scan resumes at a position independent of the end-marker hit: no stretch of the text is skipped"),
     ("C17.R4", r4_text_codec_buffer, "the text codec's work buffer holds every digit of the encoded body (premise of the reviewed index sites)"),
 ]
 
